@@ -364,9 +364,12 @@ Section Main.
     (multi_gate n = true -> NoDup (flat_map (outs_of nodes) (v_targets n))) /\
     mapped_with_interrupts n = false /\
     (is_graphnode n = true -> v_cache n = false) /\
-    (forall w, In w (v_wait n) -> exists m, In m nodes /\ In w (v_outputs m)).
+    (forall w, In w (v_wait n) -> exists m, In m nodes /\ In w (v_outputs m)) /\
+    (is_graphnode n = true -> gname_ok (v_name n) = true) /\
+    NoDup (v_outputs n) /\
+    (forall w, In w (v_wait n) -> exists m, In m nodes /\ v_name m <> v_name n /\ In w (v_outputs m)).
 
-  Lemma node_checks_spec nodes n : node_checks ident_ok end_name nodes n = true <-> NodeOK nodes n.
+  Lemma node_checks_spec nodes n : node_checks ident_ok gname_ok end_name nodes n = true <-> NodeOK nodes n.
   Proof.
     unfold node_checks, NodeOK. rewrite !andb_true_iff.
     assert (E1 : negb (Pos.eqb (v_name n) end_name) = true <-> v_name n <> end_name)
@@ -397,7 +400,17 @@ Section Main.
     { rewrite forallb_forall. split; intros H w Hw.
       - apply all_outputs_In, pos_in_In, H, Hw.
       - apply pos_in_In, all_outputs_In, H, Hw. }
-    rewrite E1, E2, E3, E4, E5, E6, E7, E8, E9. tauto.
+    assert (E10 : (negb (is_graphnode n) || gname_ok (v_name n)) = true <-> (is_graphnode n = true -> gname_ok (v_name n) = true)).
+    { destruct (is_graphnode n); simpl; [|split; [discriminate|reflexivity]]. split; auto. }
+    assert (E11 : nodup_b (v_outputs n) = true <-> NoDup (v_outputs n)) by apply nodup_b_NoDup.
+    assert (E12 : forallb (fun w => existsb (fun m => negb (Pos.eqb (v_name m) (v_name n)) && pos_in w (v_outputs m)) nodes) (v_wait n) = true
+                  <-> forall w, In w (v_wait n) -> exists m, In m nodes /\ v_name m <> v_name n /\ In w (v_outputs m)).
+    { rewrite forallb_forall. split; intros H w Hw.
+      - specialize (H w Hw). apply existsb_exists in H. destruct H as (m & Hm & Hb). apply andb_true_iff in Hb. destruct Hb as [Hne Hin].
+        exists m. split; [exact Hm|]. split; [apply Pos.eqb_neq, negb_true_iff, Hne | apply pos_in_In, Hin].
+      - destruct (H w Hw) as (m & Hm & Hne & Hin). apply existsb_exists. exists m. split; [exact Hm|].
+        apply andb_true_iff. split; [apply negb_true_iff, Pos.eqb_neq, Hne | apply pos_in_In, Hin]. }
+    rewrite E1, E2, E3, E4, E5, E6, E7, E8, E9, E10, E11, E12. tauto.
   Qed.
 
   Definition DefaultsOK (nodes : list vnode) : Prop :=
@@ -553,7 +566,33 @@ Section Main.
     In n (vg_nodes g) -> In w (v_wait n) -> (forall m, In m (vg_nodes g) -> ~ In w (v_outputs m)) -> valid' g = false.
   Proof.
     intros Htg Hn Hw Hno. apply not_WF_rejected; [exact Htg|]. intros W.
-    destruct (wf_nodes g W n Hn) as [_ [_ [_ [_ [_ [_ [_ [_ A]]]]]]]]. destruct (A w Hw) as [m [Hm Ho]]. exact (Hno m Hm Ho).
+    destruct (wf_nodes g W n Hn) as [_ [_ [_ [_ [_ [_ [_ [_ [A _]]]]]]]]]. destruct (A w Hw) as [m [Hm Ho]]. exact (Hno m Hm Ho).
+  Qed.
+
+  (* a nested-graph node renamed to something that is no path component ('' / 'a.b' / 'a/b') *)
+  Theorem reject_illegal_graphnode_name g n : targets_distinct g ->
+    In n (vg_nodes g) -> is_graphnode n = true -> gname_ok (v_name n) = false -> valid' g = false.
+  Proof.
+    intros Htg Hn Hg H. apply not_WF_rejected; [exact Htg|]. intros W.
+    destruct (wf_nodes g W n Hn) as [_ [_ [_ [_ [_ [_ [_ [_ [_ [A _]]]]]]]]]]. rewrite (A Hg) in H. discriminate.
+  Qed.
+
+  (* one node listing an output name twice *)
+  Theorem reject_repeated_output_in_node g n : targets_distinct g ->
+    In n (vg_nodes g) -> ~ NoDup (v_outputs n) -> valid' g = false.
+  Proof.
+    intros Htg Hn H. apply not_WF_rejected; [exact Htg|]. intros W.
+    destruct (wf_nodes g W n Hn) as [_ [_ [_ [_ [_ [_ [_ [_ [_ [_ [A _]]]]]]]]]]]. exact (H A).
+  Qed.
+
+  (* a wait on a name that only the waiter itself produces *)
+  Theorem reject_wait_for_own_output g n w : targets_distinct g ->
+    In n (vg_nodes g) -> In w (v_wait n) ->
+    (forall m, In m (vg_nodes g) -> In w (v_outputs m) -> v_name m = v_name n) -> valid' g = false.
+  Proof.
+    intros Htg Hn Hw Hown. apply not_WF_rejected; [exact Htg|]. intros W.
+    destruct (wf_nodes g W n Hn) as [_ [_ [_ [_ [_ [_ [_ [_ [_ [_ [_ A]]]]]]]]]]]. destruct (A w Hw) as (m & Hm & Hne & Ho).
+    exact (Hne (Hown m Hm Ho)).
   Qed.
 
   Theorem reject_bad_explicit_edge g l s d vals : targets_distinct g ->
